@@ -82,6 +82,9 @@ pub enum Op {
     PollAll,
     ArmClosurePanic,
     DropSender,
+    /// Self-reported metrics: sample the channel's own metric source with a sampler that sends a fresh item into
+    /// the SAME channel when it is handed the `at`-th metric (7 = on every metric).
+    SampleSend { at: u8 },
 }
 
 #[derive(Serialize, Deserialize, Debug, Clone, Copy, PartialEq)]
@@ -587,6 +590,28 @@ fn run_inner(case: &Case) -> Trace {
                 }
             }
             Op::ArmClosurePanic => w.lock().unwrap().arm = true,
+            Op::SampleSend { at } => {
+                if let Some(s) = cur_sender(&w) {
+                    use emit::metric::Source;
+                    struct Reenter<'a>(&'a Sender<Ch>, &'a W, u8, std::cell::Cell<u8>);
+                    impl<'a> emit::metric::sampler::Sampler for Reenter<'a> {
+                        fn metric<P: emit::Props>(&self, _metric: emit::metric::Metric<P>) {
+                            let i = self.3.get();
+                            self.3.set(i + 1);
+                            if self.2 % 8 == 7 || self.2 % 8 == i {
+                                let item = {
+                                    let mut g = self.1.lock().unwrap();
+                                    g.next_item += 1;
+                                    g.next_item
+                                };
+                                self.0.send(item);
+                                self.1.lock().unwrap().log.push(Ev::Accepted { item, via: Via::Send, waited: false });
+                            }
+                        }
+                    }
+                    s.metric_source().sample_metrics(Reenter(&s, &w, *at, std::cell::Cell::new(0)));
+                }
+            }
             Op::DropSender => {
                 for t in tasks.iter_mut() {
                     if t.fut.take().is_some() {
@@ -1171,6 +1196,7 @@ pub fn op(w: Weights) -> impl Strategy<Value = Op> {
         w.poll + 1 => prop_oneof![any::<u32>().prop_map(Op::PollTask), Just(Op::PollAll)],
         w.arm + 1 => Just(Op::ArmClosurePanic),
         w.drop + 1 => Just(Op::DropSender),
+        2 => (0u8..8).prop_map(|at| Op::SampleSend { at }),
     ]
 }
 
@@ -1270,6 +1296,7 @@ pub fn check(case: &Case, which: Prop, cx: &mut Cx) -> vcore::Res {
     let trace = run(case);
     let mut v = judge(&trace, &case.ops);
     let s = &v.stats;
+    cx.class_if(case.ops.iter().any(|o| matches!(o, Op::SampleSend { .. })), "self-reported-metrics");
     cx.class_if(s.retries > 0, "retry");
     cx.class_if(s.max_chain >= 3, "retry-chain>=3");
     cx.class_if(s.exhausted > 0, "retries-exhausted");
